@@ -8,6 +8,7 @@ import Nstd.Path.FsRoundtrip
 import Nstd.Path.FsWf
 import Nstd.Path.FsList
 import Nstd.Path.FsSucc
+import Nstd.Path.FsUnlinkGen
 /-
   Property C19, file-system part: theorems about the algorithms of File.cpp / Directory.cpp
   (Nstd/Path/FsLib.lean) over the ASSUMED POSIX semantics of Nstd/Path/Fs.lean, for all worlds
@@ -29,7 +30,8 @@ theorem file_bytes_exact (ops : List FileOp) (fs : Fs) (fd : Fd) (c : Bytes)
 
 /-- … end to end through the library calls: File::open(path, writeFlag) (existing file → truncated, missing
     file → created), File::write d₁ … dₙ (each answers true), then the static File::readAll(path) returns
-    exactly d₁ ++ … ++ dₙ; with writeFlag | appendFlag the old bytes followed by them. -/
+    exactly d₁ ++ … ++ dₙ; with writeFlag | appendFlag the old bytes followed by them (a missing file is
+    created in both modes). -/
 theorem written_bytes_are_read_back (fs : Fs) (path : Bytes) (ds : List Bytes) :
     (∀ p c, resolve fs path true = .found p (.file c) →
       ∃ fs1 fd, fileOpen fs path writeFlag = (fs1, some fd) ∧
@@ -42,10 +44,15 @@ theorem written_bytes_are_read_back (fs : Fs) (path : Bytes) (ds : List Bytes) :
     (∀ p c, resolve fs path true = .found p (.file c) →
       ∃ fd, fileOpen fs path (writeFlag + appendFlag) = (fs, some fd) ∧
         (runOps fs fd (ds.map FileOp.write)).2.2 = ds.map (fun _ => FileOut.wrote true) ∧
-        fileReadAllPath (runOps fs fd (ds.map FileOp.write)).1 path = some (c ++ ds.flatten)) :=
+        fileReadAllPath (runOps fs fd (ds.map FileOp.write)).1 path = some (c ++ ds.flatten)) ∧
+    (∀ pa n, resolve fs path true = .missing pa n →
+      ∃ fs1 fd, fileOpen fs path (writeFlag + appendFlag) = (fs1, some fd) ∧
+        (runOps fs1 fd (ds.map FileOp.write)).2.2 = ds.map (fun _ => FileOut.wrote true) ∧
+        fileReadAllPath (runOps fs1 fd (ds.map FileOp.write)).1 path = some ds.flatten) :=
   ⟨fun p c h => write_then_readAll_existing fs path p c ds h,
    fun pa n h => write_then_readAll_new fs path pa n ds h,
-   fun p c h => append_then_readAll_existing fs path p c ds h⟩
+   fun p c h => append_then_readAll_existing fs path p c ds h,
+   fun pa n h => append_then_readAll_new fs path pa n ds h⟩
 
 /-- … across copy: a File::copy that reports success (with or without an injected partial transfer) has put
     exactly the bytes of the source file into the destination file — an existing file or one created where
@@ -173,6 +180,16 @@ theorem unlink_never_follows_symlink_out (fs : Fs) (dir : Bytes) (d : CPath) (re
     ∀ q, ¬ (d <+: q) → (dirUnlinkTop fs dir recursive).1.get q = fs.get q :=
   (dirUnlink_frame _ recursive fs dir d hok hpp).out
 
+/-- The same for EVERY path string (through symbolic links, with `.` and `..`, relative or absolute): whatever
+    Directory::unlink does — recursive or not, whatever it returns — every entry that changes lies in the
+    directory `d` the path resolves to (last component not followed), and entries are only removed.  In
+    particular nothing changes at all when the path does not resolve to a directory (e.g. its last component is
+    a symbolic link, whatever that points to), and a symbolic link INSIDE the tree is removed, never followed. -/
+theorem unlink_stays_in_resolved_tree (fs : Fs) (hok : NamesOk fs) (dir : Bytes) (recursive : Bool) :
+    (∀ q, (dirUnlinkTop fs dir recursive).1.get q ≠ fs.get q → ∃ d, resolve fs dir false = .found d .dir ∧ d <+: q) ∧
+    (∀ q, (dirUnlinkTop fs dir recursive).1.get q = fs.get q ∨ (dirUnlinkTop fs dir recursive).1.get q = none) :=
+  ⟨fun q h => dirUnlink_loc _ recursive fs dir q hok h, (dirUnlink_shrinks _ recursive fs dir).2⟩
+
 /-- … and it removes nothing but entries: each entry afterwards was there before. -/
 theorem unlink_only_removes (fs : Fs) (dir : Bytes) (d : CPath) (recursive : Bool)
     (hok : NamesOk fs) (hpp : PlainParent fs dir d) :
@@ -243,6 +260,12 @@ theorem history_rename_bytes_exact (ops : List FsOp) (frm to : Bytes) (fie : Boo
       (pt ≠ pf → (fileRename (fsRun initFs ops) frm to fie).1.get pf = none) ∧
       (∀ q, q ≠ pt → q ≠ pf → (fileRename (fsRun initFs ops) frm to fie).1.get q = (fsRun initFs ops).get q) :=
   rename_bytes_exact _ frm to fie (wf_run ops).1 pf e hsrc he h
+
+/-- … after any history (no hypothesis left). -/
+theorem history_unlink_stays_in_resolved_tree (ops : List FsOp) (dir : Bytes) (recursive : Bool) (q : CPath)
+    (h : (dirUnlinkTop (fsRun initFs ops) dir recursive).1.get q ≠ (fsRun initFs ops).get q) :
+    ∃ d, resolve (fsRun initFs ops) dir false = .found d .dir ∧ d <+: q :=
+  (unlink_stays_in_resolved_tree _ (wf_run ops).1.names dir recursive).1 q h
 
 /-- Directory::open + Directory::read (no pattern) on a plain directory of a well-formed world: the listing
     contains exactly the entries of the directory, every name once; the is-directory flag is true for
